@@ -15,10 +15,16 @@ def call_elem(eta, f, level, y, z, w=None, mean=False, eta0=None, dtype=None):
     from model_diagnostics.scoring import ElementaryScore
 
     try:
-        sf = ElementaryScore(eta=eta if eta0 is None else eta0, functional=f, level=level)
-        if eta0 is not None:
+        if eta0 is not None and isinstance(level, float) and 0 < level < 1:
+            sf = ElementaryScore(eta=eta0, functional=f, level=0.5)
             sf.score_per_obs(np.array(y, dtype=float), np.array(z, dtype=float))
             sf.eta = eta
+            sf.level = level
+        else:
+            sf = ElementaryScore(eta=eta if eta0 is None else eta0, functional=f, level=level)
+            if eta0 is not None:
+                sf.score_per_obs(np.array(y, dtype=float), np.array(z, dtype=float))
+                sf.eta = eta
         if mean:
             return {"m": float(sf(np.array(y, dtype=float), np.array(z, dtype=float), None if w is None else np.array(w, dtype=float)))}
         if dtype is not None:
